@@ -18,6 +18,7 @@ pub struct C16;
 ///              the INCLUDE_DIR copy declares a different class)
 ///   variant 4: every include statement is written twice
 ///   variant 5: f0's includes are nested inside a block: let / foreach / if / multiclass > foreach
+///   variant 8: every include statement has a comment between the keyword and the file name
 ///   variant 7: no file but the root declares anything by name: the others hold an include of a
 ///              missing file, their includes and an anonymous def of the root's class
 ///   variant 6: two directories: odd files live in INCLUDE_DIR, even files next to the root; both
@@ -45,6 +46,10 @@ fn build(n: usize, edges: u64, variant: u64) -> (Vec<(String, String)>, Vec<Vec<
             }
             if edges >> (i * n + j) & 1 == 1 {
                 adj[i].push(j);
+                if variant == 8 {
+                    incs.push_str(&format!("include /* generated */ \"f{j}.td\"\n"));
+                    continue;
+                }
                 incs.push_str(&format!("include \"f{j}.td\"\n"));
                 if variant == 4 {
                     incs.push_str(&format!("include \"f{j}.td\"\n"));
@@ -160,8 +165,9 @@ fn check(n: usize, edges: u64, variant: u64) -> Verdict {
         let links = a.document_link(fid).unwrap_or_default();
         let mut want_links: Vec<(usize, usize, String)> = Vec::new();
         for j in &adj[i] {
-            for p in find_all(text, &format!("include \"f{j}.td\"")) {
-                let s = p + "include ".len();
+            let stmt = if variant == 8 { format!("include /* generated */ \"f{j}.td\"") } else { format!("include \"f{j}.td\"") };
+            for p in find_all(text, &stmt) {
+                let s = p + stmt.len() - format!("\"f{j}.td\"").len();
                 want_links.push((s, s + format!("\"f{j}.td\"").len(), path_of(*j)));
             }
         }
@@ -298,7 +304,7 @@ impl Property for C16 {
         true
     }
     fn rule(&self) -> String {
-        "exhaustive: every edge set (self-loops included) over <=3 files (thorough: <=4, all 65536) x 8 variants {plain, +missing includes (at the end of the root; first in every other file, with the same extent as the root's first include), last file only in INCLUDE_DIR, last file in both directory and INCLUDE_DIR, every include written twice, root's includes nested in a block (let / foreach / if / a foreach inside a multiclass, by graph), two directories that each hold their own common.td included everywhere by the same text, no file but the root declaring anything by name (the others hold a missing include, their includes and an anonymous def of the root's class: every diagnostic and every reference exactly once however many paths lead to a file)}; quick adds 3000 sampled 4-file graphs; thorough adds random graphs over 5..8 files. Each file = class K<i>; its include statements; one def per included file using that file's class. Oracle: set_root_file + index terminate (traversal budget), keys(diagnostics()) = reference reachable set, document links = one per resolvable include statement on its string literal with the reference target, a diagnostic on each unresolvable include and none elsewhere, each declaration once in its file's outline, references(K<j>) = its uses in every reachable includer. distinct = digest; non-trivial = the graph has a cycle or a diamond, or the variant is not plain".into()
+        "exhaustive: every edge set (self-loops included) over <=3 files (thorough: <=4, all 65536) x 9 variants {plain, +missing includes (at the end of the root; first in every other file, with the same extent as the root's first include), last file only in INCLUDE_DIR, last file in both directory and INCLUDE_DIR, every include written twice, root's includes nested in a block (let / foreach / if / a foreach inside a multiclass, by graph), two directories that each hold their own common.td included everywhere by the same text, no file but the root declaring anything by name (the others hold a missing include, their includes and an anonymous def of the root's class: every diagnostic and every reference exactly once however many paths lead to a file), every include statement written with a comment between the keyword and the file name}; quick adds 3000 sampled 4-file graphs; thorough adds random graphs over 5..8 files. Each file = class K<i>; its include statements; one def per included file using that file's class. Oracle: set_root_file + index terminate (traversal budget), keys(diagnostics()) = reference reachable set, document links = one per resolvable include statement on its string literal with the reference target, a diagnostic on each unresolvable include and none elsewhere, each declaration once in its file's outline, references(K<j>) = its uses in every reachable includer. distinct = digest; non-trivial = the graph has a cycle or a diamond, or the variant is not plain".into()
     }
     fn assumptions(&self) -> Vec<String> {
         vec!["search order from the documentation: directory of the including file, then $INCLUDE_DIR (set once per process to a virtual directory)".into()]
@@ -307,7 +313,7 @@ impl Property for C16 {
         let mut v = Vec::new();
         for n in 1..=3usize {
             v.push(
-                Family::new(&format!("all-graphs-{n}"), 8, move |variant, _r, emit| {
+                Family::new(&format!("all-graphs-{n}"), 9, move |variant, _r, emit| {
                     for e in 0..(1u64 << (n * n)) {
                         if !emit(json!({"kind": "inc", "n": n, "edges": e, "variant": variant})) {
                             return;
@@ -319,7 +325,7 @@ impl Property for C16 {
         }
         if ctx.tier == Tier::Thorough {
             v.push(
-                Family::new("all-graphs-4", 8 * 16, |chunk, _r, emit| {
+                Family::new("all-graphs-4", 9 * 16, |chunk, _r, emit| {
                     let variant = chunk / 16;
                     let hi = chunk % 16;
                     for lo in 0..(1u64 << 12) {
@@ -339,7 +345,7 @@ impl Property for C16 {
                             e |= 1 << b;
                         }
                     }
-                    if !emit(json!({"kind": "inc", "n": n, "edges": e, "variant": rng.below(8)})) {
+                    if !emit(json!({"kind": "inc", "n": n, "edges": e, "variant": rng.below(9)})) {
                         return;
                     }
                 }
@@ -348,7 +354,7 @@ impl Property for C16 {
             v.push(Family::new("sampled-graphs-4", 12, |_c, rng, emit| {
                 for _ in 0..250 {
                     let e = rng.next() & 0xFFFF;
-                    if !emit(json!({"kind": "inc", "n": 4, "edges": e, "variant": rng.below(8)})) {
+                    if !emit(json!({"kind": "inc", "n": 4, "edges": e, "variant": rng.below(9)})) {
                         return;
                     }
                 }
@@ -361,7 +367,7 @@ impl Property for C16 {
             return Verdict::Skip("malformed-case");
         };
         let n = (n as usize).clamp(1, 8);
-        check(n, e & ((1u64 << (n * n).min(63)) - 1) | if n == 8 { e & (1 << 63) } else { 0 }, v % 8)
+        check(n, e & ((1u64 << (n * n).min(63)) - 1) | if n == 8 { e & (1 << 63) } else { 0 }, v % 9)
     }
     fn shrink_keep(&self) -> &'static [&'static str] {
         &["kind", "n", "edges", "variant"]
